@@ -521,15 +521,21 @@ def regularization_config(rng):
     """decremental regularization (non-default): sub-graphs of 'fitted' members are offered to selection; with a rule that
     is not closed under taking subtrees they must be verified before they can be selected and recorded"""
     cfg = random_config(rng, optimiser=rng.choice(['evo', 'evo', 'surrogate']), multi=False)
-    cfg.update({'regularization': 'decremental', 'fitted_nodes': True, 'initial': rng.choice(['chain', 'big', 'mixed_sizes']),
+    cfg.update({'regularization': 'decremental', 'fitted_nodes': True, 'initial': rng.choice(['chain', 'big', 'big', 'mixed_sizes']),
                 'mutation_prob': rng.choice([0.2, 0.4]), 'crossover_prob': rng.choice([0.2, 0.5]),
                 'num_of_generations': rng.choice([3, 4]), 'pop_size': rng.choice([4, 6]), 'early_stopping_iterations': None,
-                'rule': rng.choice([['root_in', 'a', 'false'], ['root_in', 'ab', 'false'], ['root_in', 'a', 'raise'], None])})
+                'rule': rng.choice([['root_in', 'a', 'false'], ['root_in', 'a', 'false'], ['root_in', 'a', 'raise'],
+                                    ['root_in', 'ab', 'false'], None])})
     if cfg['rule'] is None:
         cfg.pop('rule')
     elif cfg['initial'] == 'mixed_sizes':
         cfg['rule'] = ['root_in', 'ab', cfg['rule'][2]]
-    cfg['objective'] = {'metrics': [rng.choice(['size', 'size', 'balance', 'label'])], 'multi': False}
+    # smaller is better in most cases: sub-graphs are attractive for the archive
+    cfg['objective'] = {'metrics': [rng.choice(['size', 'size', 'size', 'balance', 'label'])], 'multi': False}
+    if rng.random() < 0.6:
+        # operators that keep the size: nothing smaller than a sub-graph can be produced in another way
+        cfg.update({'mutation': ['single_change'], 'crossover': ['none'], 'keep_n_best': rng.choice([1, 3]),
+                    'scheme': rng.choice(['steady_state', 'generational', 'parameter_free'])})
     return cfg
 
 
